@@ -2221,6 +2221,14 @@ def parse_immediate(imm, line):
 
 
 def parse_item(line_tokens):
+    try:
+        return _parse_item(line_tokens)
+    except (ValueError, IndexError):
+        # too few / too many tokens for the item (tuple unpacking, indexing)
+        raise AssemblerError('invalid syntax', line_tokens.line)
+
+
+def _parse_item(line_tokens):
     line = line_tokens.line
     tokens = line_tokens.tokens
     head = tokens[0].lower()
@@ -2273,6 +2281,8 @@ def parse_item(line_tokens):
             alignment = int(alignment, base=0)
         except ValueError:
             raise AssemblerError('alignment must be an integer', line)
+        if alignment <= 0:
+            raise AssemblerError('alignment must be a positive integer', line)
         return Align(line, alignment)
     # r-type instructions
     elif head in R_TYPE_INSTRUCTIONS:
